@@ -230,6 +230,31 @@ PROPS = {
                      "the amount of perturbation per magnitude (statistical)"],
         trusted=S_COMMON + ["model: random generators (support only)", "model: sortedcontainers / deepcopy / f-string with one integer hole"],
     ),
+    "C10": dict(
+        functions=[AL + "Alignment.take_until_limit", CT + "_compute_fast_alignment_job", CT + "Continuum.get_best_alignment",
+                   CT + "Continuum.copy", CT + "Continuum.remove", CT + "Continuum.__bool__"],
+        wiring_fast=True,
+        oracles=[CT + "Continuum.get_fast_alignment", CT + "Continuum.measure_best_window_size"],
+        bounded=[dict(oracle=CT + "Continuum.get_fast_alignment",
+                      what="get_fast_alignment / get_first_window are not under a discharged contract (assumed contract of get_fast_alignment at "
+                           "the job's call site): bounded runs on the real code with a stall detector (an iteration of the main loop that "
+                           "removes no unit) and a 20 s alarm: grids of 2-4 annotators x up to 4 units incl. nested / long overlapping units and "
+                           "empty annotators x window sizes 1..ceil(units/annotators)+1 x 6 dissimilarities: terminates, partition of the "
+                           "continuum's units, reported disorder == sum of unit disorders / x-bar, >= brute-force optimum (<= 8 units), == it when "
+                           "the window covers everything"),
+                 dict(oracle=CT + "Continuum.measure_best_window_size",
+                      what="the estimate itself (numpy closures) is outside the encoding: measure_best_window_size on random continua with a "
+                           "stale finite best_window_size stored beforehand gives the verdict of a fresh measurement; the fast job calls "
+                           "get_fast_alignment iff the stored window is finite")],
+        design_ref="DESIGN.md section 4 C10 (F1-F4)",
+        not_decided=["termination / partition of get_fast_alignment for ALL inputs: only its progress lemma (take_until_limit always yields the "
+                     "leftmost unitary alignment of a non-empty alignment, each yielded one a distinct member) and the callee contracts "
+                     "(get_best_alignment partition, remove, copy) are proved; the loop composition is bounded",
+                     "the quality of the window-size estimate (a performance heuristic)"],
+        trusted=S_COMMON + T_SOLVER + ["model: sorted(list, key=...) returns a permutation (its order is not used)",
+                                       "UnitaryAlignment.bounds abstract (np.inf arithmetic outside the encoding; no obligation depends on its value)",
+                                       "wiring obligations W1-W4 are syntactic facts of the current AST"],
+    ),
     "C20": dict(
         functions=[CT + "GammaResults.gamma", CT + "GammaResults.n_samples", CT + "GammaResults.expected_disorder", CT + "GammaResults.observed_disorder",
                    AL + "Alignment.disorder"],
